@@ -797,7 +797,12 @@ func writesThroughVals(p *Prog, fn *ssa.Function, roots []ssa.Value, visiting ma
 	visiting[fn] = true
 	defer delete(visiting, fn)
 	derived, _ := aliasSets(p, fn, roots)
+	var fieldEscapes []string
+	if depth == 0 {
+		fieldEscapes = writesViaEscapedFields(p, fn, derived)
+	}
 	var out []string
+	out = append(out, fieldEscapes...)
 	for _, f := range allNested(fn) {
 		instrsOf(f, func(in ssa.Instruction) {
 			switch x := in.(type) {
@@ -1292,4 +1297,158 @@ func aliasesParams(p *Prog, fn *ssa.Function, v ssa.Value, params []*ssa.Paramet
 		return true
 	}
 	return false
+}
+
+// writesViaEscapedFields: caller memory that is parked in a struct field (a queue item, a dump record) is still the
+// caller's memory wherever that field is read back — possibly in another goroutine. Any function of the library that
+// writes through a load of such a field (element store, in-place compaction `x.f[:0]` + append, copy into it) modifies
+// the caller's packet. Field-based: all objects of the struct type are treated alike.
+func writesViaEscapedFields(p *Prog, fn *ssa.Function, derived map[ssa.Value]bool) []string {
+	escaped := map[string]string{} // field key → where it was stored
+	var walkFn func(f *ssa.Function, der map[ssa.Value]bool, depth int)
+	seenFn := map[*ssa.Function]bool{}
+	walkFn = func(f *ssa.Function, der map[ssa.Value]bool, depth int) {
+		if seenFn[f] || depth > 4 {
+			return
+		}
+		seenFn[f] = true
+		for _, ff := range allNested(f) {
+			instrsOf(ff, func(in ssa.Instruction) {
+				switch x := in.(type) {
+				case *ssa.Store:
+					if der[x.Val] {
+						if fa, ok := x.Addr.(*ssa.FieldAddr); ok {
+							if _, dup := escaped[fieldKeyAddr(fa)]; !dup {
+								escaped[fieldKeyAddr(fa)] = p.instrPos(x)
+							}
+						}
+					}
+				case ssa.CallInstruction:
+					cc := x.Common()
+					if cc.IsInvoke() && isChainIface(p, cc.Value.Type()) {
+						return
+					}
+					var args []ssa.Value
+					if cc.IsInvoke() {
+						args = append([]ssa.Value{cc.Value}, cc.Args...)
+					} else {
+						args = cc.Args
+					}
+					for _, callee := range p.Callees(x) {
+						if !p.InUniverse(callee) || callee.Blocks == nil {
+							continue
+						}
+						var sub []ssa.Value
+						for i, a := range args {
+							if der[a] && i < len(callee.Params) {
+								sub = append(sub, callee.Params[i])
+							}
+						}
+						if len(sub) > 0 {
+							d2, _ := aliasSets(p, callee, sub)
+							walkFn(callee, d2, depth+1)
+						}
+					}
+				}
+			})
+		}
+	}
+	walkFn(fn, derived, 0)
+	if len(escaped) == 0 {
+		return nil
+	}
+	var out []string
+	for _, g := range p.Funcs {
+		instrsOf(g, func(in ssa.Instruction) {
+			// values loaded from an escaped field, and slices of them
+			var fieldOfD func(v ssa.Value, seen map[ssa.Value]bool) string
+			fieldOfD = func(v ssa.Value, seen map[ssa.Value]bool) string {
+				v = p.origin(v)
+				if seen[v] {
+					return ""
+				}
+				seen[v] = true
+				switch x := v.(type) {
+				case *ssa.Slice:
+					if zeroCapSlice(x) {
+						return ""
+					}
+					return fieldOfD(x.X, seen)
+				case *ssa.Phi:
+					for _, e := range x.Edges {
+						if fk := fieldOfD(e, seen); fk != "" {
+							return fk
+						}
+					}
+				case *ssa.Call:
+					if builtinName(&x.Call) == "append" {
+						return fieldOfD(x.Call.Args[0], seen)
+					}
+				case *ssa.UnOp:
+					if x.Op == token.MUL {
+						if fa, ok := x.X.(*ssa.FieldAddr); ok {
+							if _, esc := escaped[fieldKeyAddr(fa)]; esc {
+								return fieldKeyAddr(fa)
+							}
+						}
+					}
+				}
+				return ""
+			}
+			fieldOf := func(v ssa.Value) string { return fieldOfD(v, map[ssa.Value]bool{}) }
+			switch x := in.(type) {
+			case *ssa.Store:
+				if ia, ok := x.Addr.(*ssa.IndexAddr); ok {
+					if fk := fieldOf(ia.X); fk != "" {
+						out = append(out, fmt.Sprintf("element store through %s at %s (in %s); the caller's memory was parked in that field at %s", fk, p.instrPos(x), funcKey(g), escaped[fk]))
+					}
+				}
+			case *ssa.Call:
+				switch builtinName(&x.Call) {
+				case "append":
+					// appending to a shortened re-slice of the parked slice writes into its backing array
+					if reslicedShorter(p, x.Call.Args[0]) {
+						if fk := fieldOf(x.Call.Args[0]); fk != "" {
+							out = append(out, fmt.Sprintf("append to a re-slice of %s at %s (in %s) writes into the caller's backing array; parked at %s", fk, p.instrPos(x), funcKey(g), escaped[fk]))
+						}
+					}
+				case "copy", "clear":
+					if fk := fieldOf(x.Call.Args[0]); fk != "" {
+						out = append(out, fmt.Sprintf("%s into %s at %s (in %s); parked at %s", builtinName(&x.Call), fk, p.instrPos(x), funcKey(g), escaped[fk]))
+					}
+				}
+			}
+		})
+	}
+	return out
+}
+
+// reslicedShorter: v is (a φ / append chain over) a re-slice s[:k] or s[i:j] of some slice — appending to it can write
+// into elements of s beyond the new length.
+func reslicedShorter(p *Prog, v ssa.Value) bool {
+	seen := map[ssa.Value]bool{}
+	var walk func(v ssa.Value) bool
+	walk = func(v ssa.Value) bool {
+		v = p.origin(v)
+		if seen[v] {
+			return false
+		}
+		seen[v] = true
+		switch x := v.(type) {
+		case *ssa.Slice:
+			return x.High != nil && !zeroCapSlice(x)
+		case *ssa.Phi:
+			for _, e := range x.Edges {
+				if walk(e) {
+					return true
+				}
+			}
+		case *ssa.Call:
+			if builtinName(&x.Call) == "append" {
+				return walk(x.Call.Args[0])
+			}
+		}
+		return false
+	}
+	return walk(v)
 }
